@@ -145,6 +145,45 @@ def run_fault(case, chooser):
         rig.close()
 
 
+def run_burst(case, chooser):
+    """a pipelining client: n commands that all fail in the backend plus PWD, written in one segment.  Every command
+    must get its own 451, PWD its 257, and the session must go on."""
+    spy = backends.SpyControl()
+    rig = Rig(chooser=chooser, n_sessions=2, tree=corpus.TREE, spy=spy, server_kwargs=dict(corpus.SERVER_KW),
+              backend=case["backend"])
+    problems = []
+    try:
+        w = rig.world
+        chooser.active = False
+        for i in range(2):
+            rig.ev(i, "@connect")
+            rig.ev(i, "USER anonymous")
+        spy.only_instance = 0
+        spy.count = 0
+        spy.fail_from, spy.fail_op = 1, case["op"]
+        chooser.active = True
+        n = case["n"]
+        lines = [case["cmd"].format(i=i) for i in range(n)] + ["PWD"]
+        s0 = rig.sessions[0]
+        s0.send(("\r\n".join(lines) + "\r\n").encode())
+        w.settle()
+        chooser.active = False
+        codes = [c for c, _ in s0.ctl.take_replies()]
+        if sorted(codes) != sorted(["451"] * n + ["257"]):
+            problems.append({"kind": "pipelined-failures-not-all-answered", "codes": codes, "expected": ["451"] * n + ["257"]})
+        spy.fail_from = None
+        r = rig.ev(0, "PWD")
+        if [c for c, _ in (r or [])] != ["257"]:
+            problems.append({"kind": "followup-pwd", "codes": [c for c, _ in (r or [])]})
+        r = rig.ev(1, "PWD")
+        if [c for c, _ in (r or [])] != ["257"]:
+            problems.append({"kind": "other-session-disturbed", "codes": [c for c, _ in (r or [])]})
+        return {"problems": problems, "faulted": True, "calls": spy.count, "trace": report.fp(w.net.trace),
+                "events": w.net.n_events, "outcome": report.fp(["burst", codes]), "callnames": []}
+    finally:
+        rig.close()
+
+
 def solo_other(backend):
     rig = Rig(n_sessions=1, tree=corpus.TREE, server_kwargs=dict(corpus.SERVER_KW), backend=backend)
     try:
@@ -160,8 +199,9 @@ def solo_other(backend):
 def _work(item):
     case, bound, kinds = item
     part = report.Partial()
+    runner = run_burst if case.get("mode") == "burst" else run_fault
     try:
-        for ch, res in explore(lambda c: run_fault(case, c), bound, kinds=kinds, max_exec=4000):
+        for ch, res in explore(lambda c: runner(case, c), bound, kinds=kinds, max_exec=4000):
             if ch is None:
                 part.caps.append({"case": case, "cap": 4000})
                 break
@@ -177,8 +217,9 @@ def _work(item):
             part.counters["mode_" + case["mode"]] += 1
             part.sample({"case": {k: v for k, v in case.items() if k != "solo"}, "choices": ch.choices}, limit=2)
             for p in res["problems"]:
-                sig = {"kind": p["kind"], "verb": p.get("script_verb"), "failed_op": p.get("failed_op"),
-                       "mode": p.get("mode"), "exc": case.get("exc", "OSError")}
+                sig = {"kind": p["kind"], "verb": p.get("script_verb", case.get("cmd", "").split(" ")[0] or None),
+                       "failed_op": p.get("failed_op", case.get("op")),
+                       "mode": p.get("mode", case.get("mode")), "exc": case.get("exc", "OSError")}
                 part.violation(sig, {"problem": p, "case": {k: v for k, v in case.items() if k != "solo"}},
                                replay={"case": case, "choices": ch.choices, "kinds": sorted(kinds or [])})
     except ReplayDivergence as exc:
@@ -222,6 +263,14 @@ def build_items(tier):
                     case = {"script": script, "backend": backend, "mode": "single", "k": k, "second": False,
                             "window": 1}
                     items.append((case, bound, kinds))
+    # bursts of pipelined failing commands (several tasks finish in the same dispatcher wake-up), with every
+    # iteration order of the finished-task set
+    for backend in backs:
+        for cmd, op in (("MKD boom{i}", "mkdir"), ("MLST d/f", "stat"), ("DELE g", "is_file"), ("CWD d", "exists"),
+                        ("RNFR g", "exists")):
+            for n in (1, 2, 3, 6):
+                items.append(({"mode": "burst", "script": "burst", "backend": backend, "cmd": cmd, "op": op, "n": n},
+                              1, ["done", "early"]))
     return items
 
 
